@@ -139,10 +139,28 @@ STMT_EVENTS = [
     ('method-read', ['class h:', '    def q(self):', '        return x', 'tr(h().q())'], True),
     ('class-shadow', ['class h:', '    x = tr()', '    def q(self):', '        return x', 'tr(h().q())'], True),
     ('ctor', ['class h:', '    def __init__(self):', '        self.x = x', 'tr(h())'], True),
+    # the contested name occurs ONLY inside a slice bound / step or a tuple (multi-dimensional) index
+    ('slice-lower-load', ['tr(y[x:])'], True),
+    ('slice-upper-load', ['w = y[:x]'], True),
+    ('slice-step-load', ['tr(y[::x])'], True),
+    ('slice-both-load', ['w = y[x:x]'], True),
+    ('tuple-index-load', ['tr(y[x, 0])'], True),
+    ('tuple-slice-index-load', ['tr(y[0, x:])'], True),
+    ('slice-store', ['y[x:z] = tr()'], True),
+    ('tuple-index-store', ['y[x, 0] = tr()'], True),
+    ('slice-aug', ['y[x:] += tr()'], True),
+    ('tuple-index-aug', ['y[0, x] += tr()'], True),
+    ('slice-del', ['del y[x:z]'], True),
+    ('tuple-index-del', ['del y[x, 0]'], True),
+    ('for-iter-slice', ['for w in y[x:z:2]:', '    pass'], True),
+    ('for-iter-tuple-index', ['for w in y[0, x]:', '    pass'], True),
+    ('with-slice', ['with y[x:] as w:', '    pass'], True),
+    ('return-slice', ['if y:', '    return y[:x]'], True),
+    ('attr-in-slice', ['tr(y[x.a:z])'], True),
     ('except-as', ['try:', '    pass', 'except y as x:', '    pass'], False),
 ]
 CORE = ['none', 'assign', 'read', 'global', 'nonlocal', 'global+assign', 'nonlocal+assign', 'del', 'aug', 'walrus',
-        'nested-param', 'comp-target']
+        'nested-param', 'comp-target', 'slice-lower-load', 'tuple-index-store']
 
 # expression-level events: (name, params, expr)
 LAMBDA_EVENTS = [
@@ -157,6 +175,8 @@ LAMBDA_EVENTS = [
     ('kwarg', '**x', 'x'),
     ('posonly', 'x, /', 'x'),
     ('attr', '', 'x.a'),
+    ('slice', '', 'y[x:]'),
+    ('tuple-index', '', 'y[0, x]'),
 ]
 # (name, elt, target, iter, cond)
 COMP_EVENTS = [
@@ -170,6 +190,9 @@ COMP_EVENTS = [
     ('attr-of-target', 'x.a', 'x', 'y', None),
     ('tuple-target', 'x', '(x, w)', 'y', None),
     ('attr-target', 't', 'x.a', 'y', None),
+    ('slice-elt', 'y[x:t]', 't', 'y', None),
+    ('slice-iter', 't', 't', 'y[::x]', None),
+    ('tuple-index-cond', 't', 't', 'y', 'y[t, x]'),
 ]
 KINDS = ['def', 'class', 'lambda', 'listcomp', 'genexp', 'setcomp', 'dictcomp']
 
@@ -334,7 +357,9 @@ class Rand(object):
         if k == 5:
             return '%s.%s' % (n, self.r.choice(['a', 'b']))
         if k == 6:
-            return '%s[%s]' % (n, self.r.choice(['0', "'k'", self.name(), '%s.a' % self.name(), '1:2', 'tr()']))
+            return '%s[%s]' % (n, self.r.choice(['0', "'k'", self.name(), '%s.a' % self.name(), '1:2', 'tr()',
+                                               '%s:%s' % (self.name(), self.name()), '%s:' % self.name(), '::%s' % self.name(),
+                                               '%s, %s' % (self.name(), self.name()), '0, %s:' % self.name()]))
         if k == 7:
             return '%s.a.b' % n
         if k == 8:
@@ -349,7 +374,9 @@ class Rand(object):
         if k == 6:
             return '%s.%s' % (n, self.r.choice(['a', 'b']))
         if k == 7:
-            return '%s[%s]' % (n, self.r.choice(['0', "'k'", self.name(), '-1', 'tr()', '...']))
+            return '%s[%s]' % (n, self.r.choice(['0', "'k'", self.name(), '-1', 'tr()', '...', '%s:%s' % (self.name(), self.name()),
+                                               ':%s' % self.name(), '%s::%s' % (self.name(), self.name()),
+                                               '%s, %s' % (self.name(), self.name()), '%s, 1:%s' % (self.name(), self.name())]))
         if k == 8:
             return 'tr(%s, k=%s)' % (self.expr(d + 1, scope_depth), self.expr(d + 1, scope_depth))
         if k == 9:
@@ -461,12 +488,14 @@ class Rand(object):
         if k < 8:
             return ['tr(%s)' % e()]
         if k == 8:
-            return ['%s += %s' % (r.choice([self.name(), '%s.a' % self.name(), '%s[0]' % self.name()]), e())]
+            return ['%s += %s' % (r.choice([self.name(), '%s.a' % self.name(), '%s[0]' % self.name(), '%s[%s:]' % (self.name(), self.name()),
+                                        '%s[%s, 0]' % (self.name(), self.name())]), e())]
         if k == 9:
             n = self.name()
             return ['%s: %s%s' % (n, self.name(), r.choice(['', ' = ' + e()]))]
         if k == 10:
-            return ['del %s' % r.choice([self.name(), '%s.a' % self.name(), '%s[0]' % self.name(), '%s[%s]' % (self.name(), self.name())])]
+            return ['del %s' % r.choice([self.name(), '%s.a' % self.name(), '%s[0]' % self.name(), '%s[%s]' % (self.name(), self.name()),
+                                      '%s[%s:%s]' % (self.name(), self.name(), self.name()), '%s[%s, 0]' % (self.name(), self.name())])]
         if k == 11:
             return [r.choice(['import os.path as %s' % self.name(), 'from os import path as %s, sep' % self.name(),
                               'import os', 'import os.path'] if self.runnable else
